@@ -171,12 +171,31 @@ def execute(args):
         s2 = list(t.series_a)
         after_vals = t.dataframe.astype(str).values.tolist()
         after_dtypes = [str(x) for x in t.dataframe.dtypes]
+        # histories on one object: the answer is a function of the CURRENT sidecar and the table only.  `alt` has the same
+        # columns but a host template without references (so the set of referenced columns differs)
+        alt = copy.deepcopy(sidecar)
+        alt["host"] = {"HED": {"h1": "Green"}} if case["hkind"] == "cat" else {"HED": "Green, Label/#"}
+        alt.pop("host2", None)
+        alt_sc = Sidecar(io.StringIO(json.dumps(alt)))
+        fresh_alt = list(TabularInput(pd.DataFrame(cols, dtype=str), sidecar=alt_sc).series_a)
+        t2 = TabularInput(pd.DataFrame(cols, dtype=str), sidecar=Sidecar(io.StringIO(json.dumps(alt))))
+        asked_alt = list(t2.series_a)
+        t2.reset_column_mapper(Sidecar(io.StringIO(json.dumps(sidecar))))
+        s3 = list(t2.series_a)
+        t.reset_column_mapper(Sidecar(io.StringIO(json.dumps(alt))))
+        s4 = list(t.series_a)
     except Exception as ex:  # noqa
         return ci, [("raises", "assembly raised %s: %s; sidecar=%s table=%s" % (type(ex).__name__, ex, sidecar, cols))], None
     if len(s1) != len(expected):
         problems.append(("row-count", "%d rows assembled for %d table rows" % (len(s1), len(expected))))
     if s1 != s2:
         problems.append(("not-repeatable", "second call differs: %s vs %s" % (s1, s2)))
+    if [tree(x) for x in s3] != [tree(x) for x in s1]:
+        problems.append(("history:switch-to", "an object that assembled with another sidecar first and was then given this sidecar "
+                         "(reset_column_mapper) assembles %s, a fresh object %s; sidecar=%s" % (s3, s1, json.dumps(sidecar))))
+    if [tree(x) for x in s4] != [tree(x) for x in fresh_alt] or asked_alt != fresh_alt:
+        problems.append(("history:switch-from", "an object that assembled with this sidecar first and was then given a sidecar without "
+                         "references assembles %s, a fresh object %s; first sidecar=%s" % (s4, fresh_alt, json.dumps(sidecar))))
     if before_vals != after_vals or before_cols != list(t.dataframe.columns):
         problems.append(("table-changed", "table values/columns changed by assembly"))
     elif before_dtypes != after_dtypes:
@@ -204,7 +223,8 @@ def run(ctx):
     ctx.rule = ("cases = every template tree <= MaxN nodes over {2 tag tokens, group, {A}, {B}} (each reference at most once) x "
                 "kind of column A (categorical / value / HED column) x kind of the host column (categorical / value); one events "
                 "table per case with one row per combination of cell states (host ok/n-a, A ok/n-a/unknown key/empty, B, C ok/n-a), "
-                "random column order and template spacing; distinct = (template, kinds); non-trivial = template holds a reference")
+                "random column order and template spacing; each case also as a history on one object (assemble, switch the sidecar with "
+                "reset_column_mapper, assemble again; both directions); distinct = (template, kinds); non-trivial = template holds a reference")
     cfg = "MC_Assemble.cfg" if quick else ctx.cfg("MC_Assemble.cfg", ("MaxN = 3", "MaxN = 4"))
     r = ctx.tlc("MC_Assemble", cfg, workers=1, label="template enumeration with prescribed rows; NoEmptyGroup, ParentsSurvive, NotListedTwice",
                 timeout=3000, heap="8g")
